@@ -24,6 +24,7 @@ import (
 	"time"
 
 	simplefixgo "github.com/b2broker/simplefix-go"
+	"github.com/b2broker/simplefix-go/fix"
 	"github.com/b2broker/simplefix-go/session"
 	"github.com/b2broker/simplefix-go/storages/memory"
 	fixgen "github.com/b2broker/simplefix-go/tests/fix44"
@@ -40,7 +41,9 @@ func c20Body(role string, variant string) func() {
 	return func() {
 		var h *simplefixgo.DefaultHandler
 		var s *session.Session
-		st := memory.NewStorage()
+		mst := memory.NewStorage()
+		var storeFails int32
+		st := &flakyStore{Storage: mst, fail: &storeFails}
 		peer, self := "CLI", "SRV"
 		drained := make(chan int, 1)
 		parentCtx, cancelParent := context.WithCancel(context.Background())
@@ -212,6 +215,21 @@ func c20Body(role string, variant string) func() {
 			// of it), then a message that draws no reply and changes no state
 			time.Sleep(2200 * time.Millisecond)
 			in("3", "45=1", "58=noted")
+		case "failing-store":
+			// the message store starts to fail: the session's own sends (heartbeats, replies) fail and are reported
+			// to the application's error callback from the timer and dispatch tasks, while the peer logs out and
+			// on again (state and settings change under the reporting tasks' feet)
+			s.OnError(func(error) {})
+			atomic.StoreInt32(&storeFails, 1)
+			time.Sleep(1200 * time.Millisecond)
+			in("1", "112=while-failing")
+			in("5")
+			time.Sleep(300 * time.Millisecond)
+			in("A", "98=0", "108=1")
+			time.Sleep(1300 * time.Millisecond)
+			in("1", "112=again")
+			atomic.StoreInt32(&storeFails, 0)
+			time.Sleep(1200 * time.Millisecond)
 		case "error-stop":
 			// the connection ends by a read error while senders are waiting for a peer that no longer reads: what
 			// Acceptor.serve / Initiator.Serve do then is StopWithError(err) and cancel the handler's context
@@ -419,7 +437,7 @@ func runC20(R *vlib.Out) {
 	}
 	var ps []map[string]any
 	for _, role := range []string{"acc", "ini"} {
-		for _, v := range []string{"stop", "peer-logout", "silent", "relogon", "quick-relogon", "register-during-logon", "error-stop"} {
+		for _, v := range []string{"stop", "peer-logout", "silent", "relogon", "quick-relogon", "register-during-logon", "error-stop", "failing-store"} {
 			ps = append(ps, map[string]any{"role": role, "variant": v})
 		}
 	}
@@ -434,4 +452,17 @@ func runC20(R *vlib.Out) {
 		exploreSched(R, sc)
 	}
 	finishSched(R)
+}
+
+// flakyStore: the memory store, refusing to save while *fail is set (read atomically: the flag is the harness's).
+type flakyStore struct {
+	*memory.Storage
+	fail *int32
+}
+
+func (f *flakyStore) Save(id fix.StorageID, m simplefixgo.SendingMessage, n int) error {
+	if atomic.LoadInt32(f.fail) == 1 {
+		return errors.New("store unavailable")
+	}
+	return f.Storage.Save(id, m, n)
 }
